@@ -126,21 +126,22 @@ Theorem C06_false_const_refuted_pinned :
 Proof. exact d9_pinned. Qed.
 Print Assumptions C06_false_const_refuted_pinned.
 
-(* non-vacuity: a permutation that is not the linear order, the hash guard, a cache hit that is
-   fresh, and a satisfiable result with decision nodes *)
-Definition nv_raw : list clause := [[(0, true); (1, true)]; [(2, true); (3, true)]; [(3, false); (1, false)]].
+(* non-vacuity: a permutation that is not the linear order, the hash guard, a run with a
+   component-cache hit (both values of x1 leave the residual (x2 v x3); the harness counts 1 hit in
+   3 lookups on this case) whose ghost flag stays true, a result with decision nodes, equal to the
+   cache-less compiler's *)
+Definition nv_raw : list clause := [[(0, true); (1, true)]; [(2, true); (3, true)]; [(0, false); (1, false)]].
 Example C06_nonvacuous :
-  Permutation [2; 0; 3; 1] (seq 0 (cnf_num_vars (cnf_new nv_raw))) /\ hash_guard nv_raw /\
-  match compile_raw_g [2; 0; 3; 1] true nv_raw with
+  Permutation [1; 0; 3; 2] (seq 0 (cnf_num_vars (cnf_new nv_raw))) /\ hash_guard nv_raw /\
+  match compile_raw_g [1; 0; 3; 2] true nv_raw with
   | Some (r, fl) => fl = true /\ r <> BF /\ r <> BT /\
-                    compile_raw false [2; 0; 3; 1] false false nv_raw = Some r
+                    compile_raw false [1; 0; 3; 2] false false nv_raw = Some r
   | None => False
   end.
 Proof.
   split; [|split].
-  - vm_compute. apply perm_trans with [0; 2; 3; 1]; [apply perm_swap|].
-    apply perm_skip. apply perm_trans with [2; 1; 3]; [apply perm_skip; apply perm_swap|].
-    apply perm_trans with [1; 2; 3]; [apply perm_swap|apply Permutation_refl].
+  - vm_compute. apply perm_trans with [0; 1; 3; 2]; [apply perm_swap|].
+    do 2 apply perm_skip. apply perm_swap.
   - unfold hash_guard. vm_compute. split; reflexivity.
   - vm_compute. repeat split; discriminate.
 Qed.
